@@ -236,6 +236,29 @@ theorem lockset_haveWALWriter :
       [("executor.WALFileType.SyncWAL", "w"), ("executor.WALFileType.SyncWAL", "w"),
        ("executor.WALFileType.RequestFlush", "r")] := by decide
 
+/-- the catalog's maps (`Directory.datafile`, `Directory.subDirs`): outside the constructor `load`
+    every WRITE happens with the directory's lock held in WRITE mode, or in `addSubdir`, whose only
+    caller `AddTimeBucket` holds the root lock throughout (`C17_skel_AddTimeBucket_holds_root_lock`).
+    A write moved under the read lock, or out of the lock, changes this table. -/
+theorem lockset_catalog_writes :
+    writesOutside accesses "catalog.Directory.datafile" ["catalog.load"] =
+      [("catalog.Directory.AddFile", [("d", "W")])] ∧
+    writesOutside accesses "catalog.Directory.subDirs" ["catalog.load"] =
+      [("catalog.Directory.addSubdir", []), ("catalog.Directory.addSubdir", []),
+       ("catalog.Directory.removeSubDir", [("d", "W")]), ("catalog.Directory.removeSubDir", [("d", "W")])] := by
+  decide
+
+/-- the functions that read those maps without a lexically held lock are exactly these (each is
+    reached only under a caller's lock or on a private object); a reader that loses its `RLock`
+    changes this table -/
+theorem lockset_catalog_unlocked_readers :
+    unlockedReaders accesses "catalog.Directory.datafile" ["catalog.load"] =
+      ["catalog.Directory.GatherTimeBucketInfo", "catalog.Directory.PathToTimeBucketInfo",
+       "catalog.Directory.AddFile", "catalog.catalogListFunc", "catalog.Directory.GatherFilePaths"] ∧
+    unlockedReaders accesses "catalog.Directory.subDirs" ["catalog.load"] =
+      ["catalog.catalogListFunc", "catalog.Directory.addSubdir"] := by
+  decide
+
 theorem lockset_shutdownPending :
     locksetOk accesses "executor.WALFileType.shutdownPending" = false ∧
     who accesses "executor.WALFileType.shutdownPending" =
